@@ -311,6 +311,8 @@ def c15(run):
     r10_args.check_order_tables(run)
     r10_args.check_recursion_options(run, prog.analysed_functions())
     r10_args.check_broadcast_stores(run, prog.analysed_functions())
+    r21_explog.check_ctor_forms(run)
+    r21_explog.check_exp_dispatch(run)
     run.floor('R10l', 4)
     r3_ctor.run_r3(run)
     r2_none.run_r2(run, closure(fl, depth=0 if run.tier == 'quick' else 1, prog=prog))
